@@ -3,6 +3,7 @@ package rp
 import (
 	"context"
 	"encoding/json"
+	"errors"
 	"fmt"
 	"net/http"
 	"sync"
@@ -243,6 +244,12 @@ func (k *jsonWebKeySet) UnmarshalJSON(data []byte) (err error) {
 	err = json.Unmarshal(data, &raw)
 	if err != nil {
 		return err
+	}
+	// RFC 7517 section 5: the "keys" member is REQUIRED. A JSON object without it
+	// (an error or maintenance document answered with 200, a lone JWK) is not a
+	// key set: fail the download instead of replacing the cached keys by nothing.
+	if raw.Keys == nil {
+		return errors.New("oidc: JWKS document has no \"keys\" array")
 	}
 	for _, key := range raw.Keys {
 		webKey := new(jose.JSONWebKey)
